@@ -1380,10 +1380,16 @@ def _mp_walk_worker(done_queue, ready_queue, done_event, callback):
     from queue import Empty
 
     while True:
+        # Sample the "done" flag *before* polling the queue. It is only raised once
+        # every item has been flushed to the queue, so an empty poll that started
+        # after that is conclusive. Checking the flag after the poll is racy: items
+        # can arrive, and the flag be raised, between the timeout and the check.
+        done = done_event.is_set()
+
         try:
             pos = ready_queue.get(True, timeout=1)
         except Empty:
-            if done_event.is_set():
+            if done:
                 break
             continue
 
@@ -1398,10 +1404,16 @@ def _mp_visit_worker(ready_queue, done_event, callback):
     from queue import Empty
 
     while True:
+        # Sample the "done" flag *before* polling the queue. It is only raised once
+        # every item has been flushed to the queue, so an empty poll that started
+        # after that is conclusive. Checking the flag after the poll is racy: items
+        # can arrive, and the flag be raised, between the timeout and the check.
+        done = done_event.is_set()
+
         try:
             args = ready_queue.get(True, timeout=1)
         except Empty:
-            if done_event.is_set():
+            if done:
                 break
             continue
 
